@@ -776,6 +776,11 @@ func (f *STFS) Rename(oldname, newname string) error {
 		}
 	}
 
+	// Renaming an existing entry onto itself is a no-op
+	if oldname == newname {
+		return nil
+	}
+
 	if parent, err := inventory.Stat(
 		f.metadata,
 
